@@ -445,6 +445,11 @@ func Markup(r *core.Rand) MarkupCase {
 		g.emitText(r.Pick("so", "é", "x"))
 	}
 	n := r.Range(1, 12)
+	if r.Chance(1, 40) {
+		// a long line: dozens to hundreds of pieces (more markers and characters than any fixed-size buffer)
+		n = r.Range(60, 400)
+		g.feat("long-line")
+	}
 	for i := 0; i < n; i++ {
 		w := []int{30, 8, 16, 14, 4, 12, 10}
 		if len(g.open) == 0 {
